@@ -239,6 +239,13 @@ class kLeastAbsErrors(pathmodel.AbstractPathModelDAG):
 
         self.solve_statistics = {}
         
+        # Constraints are used below, before the parent class validates them: their shape is checked here
+        if self.subpath_constraints is not None and not all(
+            isinstance(constraint, list) and all(isinstance(edge, tuple) and len(edge) == 2 for edge in constraint)
+            for constraint in self.subpath_constraints
+        ):
+            utils.logger.error(f"{__name__}: subpath_constraints must be a list of lists of edges, where each edge is a tuple of two nodes.")
+            raise ValueError("subpath_constraints must be a list of lists of edges, where each edge is a tuple of two nodes.")
         # If we get subpath constraints, and the coverage fraction is 1
         # then we know their edges must appear in the solution, so we add their edges to the trusted edges for safety
         self.optimization_options["trusted_edges_for_safety"] = set(self.trusted_edges_for_safety or [])
